@@ -121,20 +121,20 @@ func RunFaultsSQL(in wlctrl.FaultIn) (wlctrl.FaultOut, error) {
 	out.Base = base.e.Run(wlctrl.BaseCtx(), in.Op)
 	b.Quiesce()
 	var cur *sqlEnv
-	for _, f := range in.Faults {
+	for _, plan := range in.Plans {
 		if cur == nil {
 			cur = newSQLEnv(b, in.Strict, false)
 			cur.replay(in.Prefix)
 		}
 		ctx, cancel := context.WithCancel(wlctrl.BaseCtx())
 		b.SetCancel(cancel)
-		b.InjectFault(f)
+		b.InjectFaults(plan)
 		o := cur.e.Run(ctx, in.Op)
 		fired := b.FaultFired()
 		b.ClearFault()
 		cancel()
 		b.Quiesce()
-		out.Runs = append(out.Runs, wlctrl.FaultRun{Fault: f, Fired: fired, Out: o})
+		out.Runs = append(out.Runs, wlctrl.FaultRun{Plan: plan, Fired: fired, Out: o})
 		if o.Delta.Empty() {
 			cur.restoreSequences()
 		} else {
